@@ -752,12 +752,18 @@ func writeEvidence(cfg tierCfg, sums []summary, wall float64, nViol, raceRuns, r
 		},
 	}
 	b, _ := json.MarshalIndent(ev, "", " ")
-	os.MkdirAll(filepath.Join(verif, "evidence"), 0o755)
-	tmp := filepath.Join(verif, "evidence", id+".json.tmp")
+	evdir := filepath.Join(verif, "evidence")
+	if d := os.Getenv("VERIF_EVIDENCE_DIR"); d != "" {
+		// a run against another tree than /repo (self-tests) must not
+		// overwrite the evidence of the registered checks
+		evdir = d
+	}
+	os.MkdirAll(evdir, 0o755)
+	tmp := filepath.Join(evdir, id+".json.tmp")
 	if err := os.WriteFile(tmp, b, 0o644); err != nil {
 		fail("%v", err)
 	}
-	if err := os.Rename(tmp, filepath.Join(verif, "evidence", id+".json")); err != nil {
+	if err := os.Rename(tmp, filepath.Join(evdir, id+".json")); err != nil {
 		fail("%v", err)
 	}
 }
